@@ -7,7 +7,7 @@ import numpy as np
 from harness import common, nsutil
 from harness import smcdrive as sd
 
-GEN = ["compute_weights", "log_p_t", "unnormalized_log_weights", "log_evidence_ratio", "smc_log_prob"]
+GEN = ["compute_weights", "log_p_t", "unnormalized_log_weights", "log_evidence_ratio", "smc_log_prob", "importance_sample"]
 
 
 class BoxGauss(sd.Target):
@@ -70,9 +70,13 @@ def run(ctx):
     for pre, pkw, opt in ((None, None, {}), ("default", {}, {"bounds": True, "periodic": True})):
         configs.append(("circle", lambda d: Circle(2.0, 1.0), 1, "minipcn_smc", pre, pkw, opt))
     configs.append(("circle", lambda d: Circle(2.0, 1.0), 1, "importance", None, None, {}))
+    # always present: importance sampling with a proposal that leaks a third of its mass outside the prior support onto a
+    # posterior hugging that bound (the mean weight must be taken over ALL draws, zero-weight ones included)
+    leaky = [("bound-hugging-leaky", lambda d: BoxGauss(d, 1.0, 4.3), d, "importance", None, None, {}) for d in (1, 2)]
     if ctx.quick:
         ctx.rng.shuffle(configs)
-        configs = configs[:14]
+        configs = configs[:12]
+    configs = leaky + configs
     for (tname, mk, d, kind, pre, pkw, opt) in configs:
         nsname = ctx.rng.choice(["numpy", "numpy", "torch", "jax"]) if kind != "emcee_smc" else "numpy"
         case = {"target": tname, "dims": d, "sampler": kind, "preconditioning": pre, "kwargs": pkw, "options": opt, "ns": nsname, "replicates": R}
@@ -88,7 +92,8 @@ def run(ctx):
                 import emcee
                 emcee.reset_counter(seed % 997)
                 xp = NS[nsname]
-                flow = sd.FakeFlow(d, mu=math.pi if tname == "circle" else 0.8, sigma=2.0 if tname != "bound-hugging" else 3.0, seed=seed % 1000)
+                flow = sd.FakeFlow(d, mu=math.pi if tname == "circle" else (4.0 if tname == "bound-hugging-leaky" else 0.8),
+                                   sigma=3.0 if tname == "bound-hugging" else 2.0, seed=seed % 1000)
                 akw = {}
                 if opt.get("bounds"):
                     akw["prior_bounds"] = {f"x_{i}": ((0.0, 2 * math.pi) if tname == "circle" else (-5.0, 5.0)) for i in range(d)}
